@@ -21,6 +21,7 @@ func init() { register("C14", propC14, false, true) }
 func propC14(c *Ctx) {
 	c.R.Explanation = "Decides, for all INCLUDE parameter strings and include graphs (modulo symlinks and OS path semantics): (a) who may touch the file system: only the three reference sites; (b) the stat'ed and read path is filepath.Join(dir of the including file, p) for the very string p that passed the name predicate first, and the path handed on is the one that was stat'ed in this call; (c) the name predicate, translated to a product automaton, accepts no string outside the safe language (non-empty, not absolute, no backslash, no '.'/'..' segment) - a counterexample word is printed otherwise; (d) the cycle guard of the scanner stack (lookup before push, insert, delete on pop, scanner switched only after a successful push); (e) errors of the INCLUDE handler are located at the INCLUDE keyword."
 	c.ruleC14FS()
+	c.ruleSameSource() // "located at the INCLUDE": file and index of every error come from one object
 	c.ruleC14ValidateFirst()
 	c.ruleC14Predicate()
 	c.ruleC14CycleGuard()
@@ -30,6 +31,7 @@ func propC14(c *Ctx) {
 	c.ruleCycleBeforeScan("C14-CYCLE-BEFORE-SCAN")
 	if m := c.E1Base(); m != nil {
 		c.ruleQuotedEscapes(m, "C14-QUOTED-ESCAPES")
+		c.ruleEOFOpen(m, c.Analysis(stackK, false), "C14-EOF-OPEN") // the file name of an INCLUDE on the last line of a file is a parameter like any other
 	}
 	c.ruleNextDirectiveRecognised("C14-NEXT-DIRECTIVE") // an INCLUDE after an implicit Description must be seen (and so refused, read or reported)
 }
